@@ -7,6 +7,7 @@ final newline, or a truncation (at every character of every stream).  The real
 stream; oracle = item-for-item conservation, pacing at every readline, prefix
 property under truncation."""
 import itertools
+import os
 import traceback
 
 from .. import sut, explore, outparse
@@ -64,6 +65,18 @@ def base_streams():
     for m in s5:
         m['queue'] = 'Default Queue'
     streams['s5_cur_queue_and_conn_empty_titles'] = [wlprint.render(m, 'cur') for m in s5]
+    # a client that syncs before it asks for the registry (its side becomes known late), and messages that only the newest
+    # shipped description of their interface has (older copies of wayland.xml are shipped beside it)
+    s6 = [_m(T, True, 'wl_display', 1, 'sync', [['new', 'wl_callback', 3]]),
+          _m(T + 100, True, 'wl_display', 1, 'get_registry', [['new', 'wl_registry', 2]]),
+          _m(T + 200, False, 'wl_callback', 3, 'done', [['int', 5]]),
+          _m(T + 300, False, 'wl_display', 1, 'delete_id', [['int', 3]]),
+          _m(T + 400, True, 'wl_registry', 2, 'bind', [['int', 1], ['str', 'wl_compositor'], ['int', 6], ['new', None, 3]]),
+          _m(T + 500, True, 'wl_compositor', 3, 'create_surface', [['new', 'wl_surface', 4]]),
+          _m(T + 600, False, 'wl_surface', 4, 'preferred_buffer_scale', [['int', 2]]),
+          _m(T + 700, True, 'wl_surface', 4, 'offset', [['int', 1], ['int', -2]]),
+          _m(T + 800, False, 'wl_surface', 4, 'preferred_buffer_transform', [['int', 3]])]
+    streams['s6_mid_late_registry_newest_messages'] = [wlprint.render(m, 'mid') for m in s6]
     return streams
 
 
@@ -154,6 +167,10 @@ def eval_chatter(case):
         base = base_streams()[case['stream']]
         clean_groups, _, _, _ = run_stream(make_text(base))
         clean = [essential(g) for g in clean_groups]
+        for k, g in enumerate(clean):
+            # every line of a base stream is a well-formed message: its one item is the decoded message, not a complaint
+            if len(g) != 1 or kind_of(g[0]) != 'message':
+                V.append(Violation('conservation.message_not_decoded', case, {'line': base[k], 'observed': g}))
         lines = [(l, True) for l in base]
         for pos, ci in sorted(case['insert'], key=lambda x: -x[0]):
             lines.insert(pos, (CHATTER[ci], False))
@@ -333,9 +350,76 @@ def gen_trunc(tier):
                 yield {'stream': name, 'insert': ins, 'cut': cut}
 
 
+def eval_file_source(case):
+    """The real command line in file mode: what `-l` names may be a regular file or something that has no size - a
+    named pipe (`-l <(cmd)`, a FIFO): every line must produce its item all the same."""
+    import subprocess
+    import tempfile
+    import threading
+    V = []
+    base = base_streams()[case['stream']]
+    lines = list(base)
+    lines.insert(2, 'chatter in between')
+    lines.insert(0, '')
+    text = make_text(lines, case['final_newline'])
+    main_py = os.path.join(sut.REPO, 'main.py')
+    env = dict(os.environ, PYTHONDONTWRITEBYTECODE='1')
+    env.pop('WAYLAND_DEBUG', None)
+    flags = ['-C'] + (['--supress'] if case['suppress'] else [])
+    with tempfile.TemporaryDirectory(prefix='verif-c08-') as d:
+        reg = os.path.join(d, 'in.log')
+        with open(reg, 'w') as f:
+            f.write(text)
+        try:
+            want = subprocess.run(['/venv/bin/python', main_py] + flags + ['-l', reg], input='q\n', capture_output=True, text=True,
+                                  env=env, cwd=d, timeout=60)
+            fifo = os.path.join(d, 'in.fifo')
+            os.mkfifo(fifo)
+
+            def writer():
+                with open(fifo, 'w') as f:
+                    f.write(text)
+            th = threading.Thread(target=writer, daemon=True)
+            p = subprocess.Popen(['/venv/bin/python', main_py] + flags + ['-l', fifo], stdin=subprocess.PIPE, stdout=subprocess.PIPE,
+                                 stderr=subprocess.PIPE, text=True, env=env, cwd=d)
+            th.start()
+            try:
+                out, err = p.communicate('q\n', timeout=60)
+            except subprocess.TimeoutExpired:
+                p.kill()
+                out, err = p.communicate()
+                V.append(Violation('conservation.file_source_hangs', case, {'stdout_tail': out[-300:]}))
+            if th.is_alive():
+                # nobody opened the pipe for reading: release the writer
+                try:
+                    fd = os.open(fifo, os.O_RDONLY | os.O_NONBLOCK)
+                    os.close(fd)
+                except OSError:
+                    pass
+            if not V and (out != want.stdout or p.returncode != want.returncode):
+                a, b = want.stdout.split('\n'), out.split('\n')
+                k = next((i for i, (x, y) in enumerate(zip(a, b)) if x != y), min(len(a), len(b)))
+                V.append(Violation('conservation.file_source', case, {'regular_file': a[k:k + 2], 'named_pipe': b[k:k + 2],
+                                                                       'lines_regular': len(a), 'lines_pipe': len(b), 'stderr': err[-300:]}))
+            if not want.stdout.strip():
+                V.append(Violation('conservation.file_source', case, {'regular_file_output': want.stdout, 'stderr': want.stderr[-300:]}))
+        except Exception:
+            V.append(sut.exc_violation(case))
+    return Eval(V, outcome=[case['stream'], case['suppress'], len(V)], nontrivial=True, transitions=2)
+
+
+def gen_file_source(tier):
+    for name in base_streams():
+        for suppress in (False, True):
+            for fn in ((True, False) if tier != 'quick' else (True,)):
+                yield {'file_source': True, 'stream': name, 'suppress': suppress, 'final_newline': fn}
+
+
 def run(run, tier, seed):
     sut.bind()
     sut.ensure_protocols()
+    res = explore.prod(lambda: gen_file_source(tier), eval_file_source, seed=seed, bound={'sources': ['regular file', 'named pipe']})
+    run.add_part('file_mode_sources', res)
     res = explore.prod(lambda: gen_chatter(tier), eval_chatter, seed=seed,
                        bound={'chatter_insertions': 1 if tier == 'quick' else 2})
     run.add_part('chatter', res)
@@ -354,6 +438,8 @@ def run(run, tier, seed):
 def replay(case):
     sut.bind()
     sut.ensure_protocols()
+    if case.get('file_source'):
+        return eval_file_source(case).viols
     if 'cut' in case:
         return eval_truncation(case).viols
     if 'suppress' not in case:
